@@ -585,6 +585,74 @@ static Reg r_rhsolve("rh_solve", [](const Args& a) {
   }
 });
 
+// ---- exact path: Carlson kernels, DE, DRectifying, exact GenInverse / GenPosition around their kernels (Model/RhumbExact.lean) ----
+#include <GeographicLib/EllipticFunction.hpp>
+static Reg r_rhcarlson("rh_carlson", [](const Args& a) {
+  double x = unhx(a[0]), y = unhx(a[1]), z = unhx(a[2]);
+  emit(hx(EllipticFunction::RF(x, y, z)) + " " + hx(EllipticFunction::RD(x, y, z)));
+});
+static std::string hxa(const AuxAngle& p) { return hx(p.y()) + " " + hx(p.x()); }
+// rh_de a f lat1 lat2 : DE on the parametric latitudes of two geographic latitudes (as DRectifying calls it); oracle: the
+// divided difference of the elliptic integral int sqrt(1 + e'^2 sin^2) by quadrature over the interval itself
+static Reg r_rhde("rh_de", [](const Args& a) {
+  double ea = unhx(a[0]), ef = unhx(a[1]), lat1 = unhx(a[2]), lat2 = unhx(a[3]);
+  const DAuxLatitude& A = rh(ea, ef, true)._aux;
+  AuxAngle b1(A.Parametric(AuxAngle::degrees(lat1))), b2(A.Parametric(AuxAngle::degrees(lat2)));
+  current_op() = "rh_de " + a[0] + " " + a[1] + " " + hxa(b1) + " " + hxa(b2);
+  double v = A.DE(b1, b2); emit(hx(v));
+  if (!(std::fabs(lat1) < 90 && std::fabs(lat2) < 90 && lat1 != lat2 && lat1 * lat2 > 0)) return;   // stipulated by DE: distinct, same sign, not 0 / 90
+  const rho::Ell& E = el(ea, ef); LD e12 = E.e2 / (1 - E.e2);
+  LD x = atan2l(fabsl((LD)b1.y()), (LD)b1.x()), y = atan2l(fabsl((LD)b2.y()), (LD)b2.x());
+  if (fabsl(y - x) < 1e-6L) return;   // the angles come from rounded (sin, cos) pairs: the quotient referees only for separated angles (Lean model otherwise)
+  LD ref = rho::integrate([&](LD t) { LD s = sinl(t); return sqrtl(1 + e12 * s * s); }, x, y) / (y - x);
+  // what the rhumb solvers need of DE (through DRectifying = b DE / R_mu x DParametric): the length tolerance over a course of up to half a turn of
+  // longitude, as for op dde (near a pole lengths shrink with cos(phi) and so does the required relative accuracy; cos((x+y)/2) loses it there)
+  LD s1_, c1_, s2_, c2_; rho::scd(lat1, s1_, c1_); rho::scd(lat2, s2_, c2_);
+  double need = tol_len(ea, 0) / (double)(E.Rmu * (rho::PI * std::max(c1_, c2_) + fabsl((LD)lat2 - (LD)lat1) * rho::DEG));
+  if (!(std::fabs((double)((LD)v - ref)) <= (64 * EPS + need) * std::fabs((double)ref))) bad("dd-elliptic", "DE = " + num(v) + " but (E(y) - E(x))/(y - x) by quadrature = " + num(ref));
+});
+static Reg r_rhdrect("rh_drect", [](const Args& a) {
+  double ea = unhx(a[0]), ef = unhx(a[1]), lat1 = unhx(a[2]), lat2 = unhx(a[3]);
+  const DAuxLatitude& A = rh(ea, ef, true)._aux;
+  AuxAngle p1(AuxAngle::degrees(lat1)), p2(AuxAngle::degrees(lat2)); double d1;
+  AuxAngle m1(A.Rectifying(p1, &d1)), m2(A.Rectifying(p2));
+  current_op() = "rh_drect " + a[0] + " " + a[1] + " " + hxa(p1) + " " + hxa(p2) + " " + hxa(m1) + " " + hx(d1) + " " + hxa(m2) + " " + hx(A.RectifyingRadius(true));
+  emit(hx(A.DRectifying(p1, p2)));
+});
+// the kernel values of the exact solvers for two geographic latitudes given as AuxAngles (same calls as GenInverse / MeanSinXi / DRectifying make)
+static std::string xkernels(const Rhumb& R, const AuxAngle& p1, const AuxAngle& p2, const AuxAngle& k1, const AuxAngle& k2) {
+  const DAuxLatitude& A = R._aux;
+  AuxAngle px(A.Convert(AuxLatitude::CHI, AuxLatitude::PHI, k1, true)), py(A.Convert(AuxLatitude::CHI, AuxLatitude::PHI, k2, true));
+  double d1; AuxAngle m1(A.Rectifying(p1, &d1)), m2(A.Rectifying(p2));
+  std::string o = hxa(p1) + " " + hxa(p2) + " " + hxa(k1) + " " + hxa(k2) + " " + hxa(px) + " " + hxa(py) + " " + hxa(m1) + " " + hx(d1) + " " + hxa(m2) + " " + hx(A.RectifyingRadius(true)) + " " + hx(R._rm) + " " + hx(R._c2);
+  for (int l = 0; l < R._lL; ++l) o += " " + hx(R._pP[l]);
+  return o;
+}
+static Reg r_rhxinv("rh_xinv", [](const Args& a) {
+  double ea = unhx(a[0]), ef = unhx(a[1]), lat1 = unhx(a[2]), lon1 = unhx(a[3]), lat2 = unhx(a[4]), lon2 = unhx(a[5]);
+  const Rhumb& R = rh(ea, ef, true);
+  AuxAngle p1(AuxAngle::degrees(lat1)), p2(AuxAngle::degrees(lat2)), k1(R._aux.Convert(AuxLatitude::PHI, AuxLatitude::CHI, p1, true)), k2(R._aux.Convert(AuxLatitude::PHI, AuxLatitude::CHI, p2, true));
+  std::string op = "rh_xinv"; for (int i = 0; i < 6; ++i) op += " " + a[i];
+  current_op() = op + " " + xkernels(R, p1, p2, k1, k2);
+  double s12 = -999, azi12 = -999, S12 = -999; R.GenInverse(lat1, lon1, lat2, lon2, M_ALL_INV, s12, azi12, S12);
+  emit(hx(s12) + " " + hx(azi12) + " " + hx(S12));
+});
+static Reg r_rhxpos("rh_xpos", [](const Args& a) {
+  double ea = unhx(a[0]), ef = unhx(a[1]), lat1 = unhx(a[2]), lon1 = unhx(a[3]), azi = unhx(a[4]), s12 = unhx(a[5]); bool unroll = a[6] == "1";
+  const Rhumb& R = rh(ea, ef, true);
+  RhumbLine L = R.Line(lat1, lon1, azi);
+  double r12 = s12 / (R._rm * Math::degree()), mu2 = L._mu1 + r12 * L._calp;
+  std::string op = "rh_xpos"; for (int i = 0; i < 7; ++i) op += " " + a[i];
+  op += " " + hx(L._mu1) + " " + hx(L._salp) + " " + hx(L._calp) + " " + hx(mu2);
+  if (std::fabs(mu2) <= 90) {
+    AuxAngle p2(R._aux.Convert(AuxLatitude::MU, AuxLatitude::PHI, AuxAngle::degrees(mu2), true)), k2(R._aux.Convert(AuxLatitude::PHI, AuxLatitude::CHI, p2, true));
+    op += " " + xkernels(R, L._phi1, p2, L._chi1, k2);
+  } else op += " " + xkernels(R, L._phi1, L._phi1, L._chi1, L._chi1);
+  current_op() = op;
+  double lat2 = -999, lon2 = -999, S12 = -999; L.GenPosition(s12, M_ALL_DIR | (unroll ? Rhumb::LONG_UNROLL : 0U), lat2, lon2, S12);
+  emit(hx(lat2) + " " + hx(lon2) + " " + hx(S12));
+});
+
 // ---- generators -------------------------------------------------------------------------------------------------
 static double pw(Rng& r, int lo, int hi) { return std::pow(10.0, r.range(lo, hi)); }
 void gv::generate(const std::string& tier, uint64_t seed) {
@@ -633,6 +701,7 @@ void gv::generate(const std::string& tier, uint64_t seed) {
       }
       run("rinv", {A, F, X, H(lat1), H(lon1), H(lat2), H(lon2)}); stratum(sn); if (i < 2) sample(current_op());
       if (e.modes != 2) { run("rh_inv", {A, F, H(lat1), H(lon1), H(lat2), H(lon2)}); stratum("model-" + sn); }
+      if (e.modes != 1 && (exact || i % 2 == 0)) { run("rh_xinv", {A, F, H(lat1), H(lon1), H(lat2), H(lon2)}); stratum("xmodel-" + sn); }
       if (i % 3 == 0) { run("rh_api", {A, F, X, H(lat1), H(lon1), H(lat2), H(lon2), H(r.range(-180, 180) + 360 * r.irange(-1, 1)), H(r.range(-3e7, 3e7) * e.a / aW)}); stratum("api-" + sn); }
       if (i % 4 == 1 && std::fabs(lat1) <= 90 && std::fabs(lat2) <= 90 && std::fabs(lon1) < 1e6) {
         int variant = (exact ? 1 : 0) | (r.coin() ? 2 : 0) | (r.pick(std::vector<int>{0, 4, 8})) | (r.irange(0, 3) == 0 ? 16 : 0);
@@ -658,6 +727,7 @@ void gv::generate(const std::string& tier, uint64_t seed) {
       std::string U = r.irange(0, 2) ? "1" : "0";
       run("rdir", {A, F, X, H(lat1), H(lon1), H(azi), H(s12), U}); stratum(sn); if (i < 2) sample(current_op());
       if (e.modes != 2) { run("rh_pos", {A, F, H(lat1), H(lon1), H(azi), H(s12), U}); stratum("model-" + sn); }
+      if (e.modes != 1 && (exact || i % 2 == 0)) { run("rh_xpos", {A, F, H(lat1), H(lon1), H(azi), H(s12), U}); stratum("xmodel-" + sn); }
     }
     // ---------- divided-difference kernels
     for (int rep = 0; rep < 4; ++rep) {
@@ -681,7 +751,14 @@ void gv::generate(const std::string& tier, uint64_t seed) {
     { int fn = r.irange(0, 2); double lat1 = lat_gen(r.irange(0, 5)), lat2; int k = r.irange(0, 4);
       switch (k) { case 0: lat2 = lat1; break; case 1: lat2 = lat1 + r.range(-1, 1) * pw(r, -13, 0); break; case 2: lat2 = r.coin() ? nextup(lat1) : nextdn(lat1); break; case 3: lat2 = -lat1 * r.range(0.5, 1.5); break; default: lat2 = lat_gen(r.irange(0, 5)); }
       if (std::fabs(lat2) > 90) lat2 = lat1;
-      run("dde", {A, F, std::to_string(fn), H(lat1), H(lat2)}); stratum("dde-" + std::to_string(fn)); }
+      run("dde", {A, F, std::to_string(fn), H(lat1), H(lat2)}); stratum("dde-" + std::to_string(fn));
+      if (e.modes != 1) { run("rh_drect", {A, F, H(lat1), H(lat2)}); stratum("xmodel-drectifying-" + std::to_string(k));
+        double l2 = lat2; if (k == 3) l2 = -lat2;   // DE stipulates the same sign
+        if (lat1 != l2 && lat1 * l2 > 0 && std::fabs(lat1) < 90 && std::fabs(l2) < 90) { run("rh_de", {A, F, H(lat1), H(l2)}); stratum("xmodel-de-" + std::to_string(k)); } }
+      { // Carlson RF(x, y, 1), RD(x, y, 1) on the argument shapes of DE / Rectifying: x in [0, 1], y in [1 - k2, 1] or beyond; and general positive triples
+        double x = r.coin() ? r.range(0, 1) : pw(r, -12, 0), y = 1 + r.range(-0.9, 1) * (r.coin() ? 1 : pw(r, -6, 0)), z = r.irange(0, 2) ? 1 : pw(r, -2, 2);
+        if (r.irange(0, 9) == 0) x = 0;
+        run("rh_carlson", {H(x), H(y), H(z)}); stratum("xmodel-carlson"); } }
   }
 }
 int main(int argc, char** argv) { return gv::main_(argc, argv); }
